@@ -228,7 +228,12 @@ pub fn first<T: AsRef<Path>>(path: T) -> RvResult<String> {
 /// assert_eq!(sys::name("/foo/bar.foo").unwrap(), "bar");
 /// ```
 pub fn name<T: AsRef<Path>>(path: T) -> RvResult<String> {
-    base(trim_ext(path)?)
+    let path = path.as_ref();
+    let base = base(path)?;
+    Ok(match path.extension() {
+        Some(val) => base.trim_suffix(format!(".{}", val.to_string()?)),
+        None => base,
+    })
 }
 
 /// Returns true if the `Path` contains the given path or string.
@@ -436,7 +441,8 @@ pub fn relative<T: AsRef<Path>, U: AsRef<Path>>(path: T, base: U) -> RvResult<Pa
 pub fn trim_ext<T: AsRef<Path>>(path: T) -> RvResult<PathBuf> {
     let path = path.as_ref();
     Ok(match path.extension() {
-        Some(val) => trim_suffix(path, format!(".{}", val.to_string()?)),
+        // Ignore trailing separators so they don't hide the extension
+        Some(val) => trim_suffix(path.components().as_path(), format!(".{}", val.to_string()?)),
         None => path.to_path_buf(),
     })
 }
